@@ -354,3 +354,37 @@ def sources(f, expr):
                         src |= new
                         changed = True
     return src
+
+
+def inline_call(f, call):
+    """The return expression of a module-level single-return helper with the call's arguments substituted for its parameters (a new AST), or None."""
+    if not (isinstance(call, ast.Call) and isinstance(call.func, ast.Name)):
+        return None
+    h = getattr(f.mod, 'funcs', {}).get(call.func.id)
+    if h is None or isinstance(h.node, ast.Lambda):
+        return None
+    body = real(list(h.node.body))
+    if not (len(body) == 1 and isinstance(body[0], ast.Return) and body[0].value is not None) or any(isinstance(a, ast.Starred) for a in call.args):
+        return None
+    sub = dict(zip(h.params, call.args))
+    for k_ in call.keywords:
+        if k_.arg:
+            sub[k_.arg] = k_.value
+    nd = len(h.node.args.defaults)
+    for p_, d_ in zip(h.params[len(h.params) - nd:], h.node.args.defaults):
+        sub.setdefault(p_, d_)
+    if not all(p_ in sub for p_ in h.params):
+        return None
+
+    def subst(n):
+        if isinstance(n, ast.Name) and n.id in sub:
+            return sub[n.id]
+        if isinstance(n, ast.AST):
+            m = type(n)()
+            for fld in n._fields:
+                if hasattr(n, fld):
+                    v = getattr(n, fld)
+                    setattr(m, fld, [subst(x) for x in v] if isinstance(v, list) else subst(v))
+            return ast.copy_location(m, n) if hasattr(n, 'lineno') else m
+        return n
+    return subst(body[0].value)
